@@ -36,7 +36,16 @@ Pow2(n) == LET RECURSIVE p(_)
      "sub_port" n / "sub_id" name   restricted sub-queries (only in searches, C02)   *)
 InRange(v, lo, hi) == v >= lo /\ (hi = -1 \/ v <= hi)
 HostIn(ip, h, bits) == (ip \div Pow2(32 - bits)) = (h \div Pow2(32 - bits))
-HasTok(s, d, tok) == \E i \in DOMAIN s.ev : s.ev[i].d = d /\ s.ev[i].t = tok
+\* Converter outputs are a function of the payload (two imaginary converters): "a" renames the tokens cyclically
+\* (AA -> CC, BB -> AA, CC -> BB), "b" says the chunks in reverse order.  A payload filter with a converter selector
+\* (cdata.a:"AA") looks at that output only; without a selector at the raw payload (no cached output exists in C02 / C03).
+Rot(t) == CASE t = "AA" -> "CC" [] t = "BB" -> "AA" [] t = "CC" -> "BB" [] OTHER -> t
+EvOf(s, conv) ==
+    CASE conv = "a" -> [i \in DOMAIN s.ev |-> [d |-> s.ev[i].d, t |-> Rot(s.ev[i].t)]]
+      [] conv = "b" -> [i \in DOMAIN s.ev |-> s.ev[Len(s.ev) + 1 - i]]
+      [] OTHER -> s.ev
+HasTokIn(ev, d, tok) == \E i \in DOMAIN ev : ev[i].d = d /\ ev[i].t = tok
+HasTok(s, d, tok) == HasTokIn(s.ev, d, tok)
 
 NumVal(t, s) == CASE t = "id" -> s.id [] t = "cbytes" -> s.cbytes [] t = "sbytes" -> s.sbytes
                   [] t = "cport" -> s.cport [] t = "sport" -> s.sport
@@ -56,9 +65,9 @@ AtomHolds(a, s, P) ==
       [] a.k = "shost"  -> HostIn(s.shost, a.h, a.bits)
       [] a.k = "host"   -> HostIn(s.chost, a.h, a.bits) \/ HostIn(s.shost, a.h, a.bits)
       [] a.k = "tag"    -> a.name \in Range(s.tags)
-      [] a.k = "cdata"  -> HasTok(s, "c", a.tok)
-      [] a.k = "sdata"  -> HasTok(s, "s", a.tok)
-      [] a.k = "data"   -> HasTok(s, "c", a.tok) \/ HasTok(s, "s", a.tok)
+      [] a.k = "cdata"  -> HasTokIn(EvOf(s, a.conv), "c", a.tok)
+      [] a.k = "sdata"  -> HasTokIn(EvOf(s, a.conv), "s", a.tok)
+      [] a.k = "data"   -> HasTokIn(EvOf(s, a.conv), "c", a.tok) \/ HasTokIn(EvOf(s, a.conv), "s", a.tok)
       [] a.k = "ftime"  -> InRange(s.ft, a.lo, a.hi)
       [] a.k = "ltime"  -> InRange(s.lt, a.lo, a.hi)
       \* arithmetic on fields of the same stream:  field OP n + sum(s[i] * LinVars[i])   (id:7-@id@:  means id >= 7 - id)
@@ -130,11 +139,13 @@ DataCondHolds(c, s) ==
     LET n == Len(c.els)
         RECURSIVE walk(_, _)
         \* returns the chunk index of the match of element i when elements 1..i match in sequence, else 0
+        \* (elements with a converter selector are generated as single-element conditions only)
+        evi(i) == EvOf(s, c.els[i].conv)
         walk(i, p) == IF i = 0 THEN p
                       ELSE LET q == walk(i - 1, p) IN
-                           IF i > 1 /\ q = 0 THEN 0 ELSE FirstAfter(s.ev, c.els[i].d, c.els[i].tok, IF i = 1 THEN 0 ELSE q)
+                           IF i > 1 /\ q = 0 THEN 0 ELSE FirstAfter(evi(i), c.els[i].d, c.els[i].tok, IF i = 1 THEN 0 ELSE q)
         before == IF n = 1 THEN 1 ELSE walk(n - 1, 0)        \* # 0 iff the first n-1 elements match
-        last == IF before = 0 THEN 0 ELSE FirstAfter(s.ev, c.els[n].d, c.els[n].tok, IF n = 1 THEN 0 ELSE before)
+        last == IF before = 0 THEN 0 ELSE FirstAfter(evi(n), c.els[n].d, c.els[n].tok, IF n = 1 THEN 0 ELSE before)
     IN before # 0 /\ ((last # 0) # c.inv)
 
 CondHolds(c, s) ==
